@@ -1298,6 +1298,10 @@ static void CodeALIGN(Word Index) {
         if (OK) {
             AlignValue = EvalStrIntExpression(&ArgStr[1], Int16, &OK);
         }
+        if (OK && !AlignValue) {
+            WrStrErrorPos(ErrNum_UnderRange, &ArgStr[1]);
+            OK = False;
+        }
         if (OK) {
             if (mFirstPassUnknown(Flags)) {
                 WrError(ErrNum_FirstPassCalc);
